@@ -201,3 +201,9 @@ claim("C21", "bounds must-pass-through + allocation-cap dataflow rule + who-may-
       "rejects underflow; every with_capacity/reserve in a Decode impl or the Value decoder is constant, min(len,K<=4096)-shaped or validated by "
       "read_slice(len)?; traversers read input only through decoder primitives; the residual panic-capable constructs of sbor::decoder match an "
       "audited multiset. Depth-accounting agreement between decoder, traverser and encoder is not decided.", level="other")
+
+claim("C33", "argument-origin dataflow on signer-set inserts + guard dominance of verification + who-may-construct (variant source) table",
+      "Decides: in the non-preview arms every key inserted into the signer set originates from a successful verify_and_recover on that arm's "
+      "signed_hash or is the notary key inserted behind verify(notarized_hash, notary key, notary signature)==true under notary_is_signatory; the "
+      "TransactionIntent arm cannot complete without the notary verification; duplicate/invalid arms are doomed; Preview* variants come only from "
+      "preview transaction types. Byte-mutation resistance is cryptographic and not decided.")
